@@ -693,3 +693,35 @@ def decorate(draw, prog, abi=True, rename=True, disable=True, density=4, namespa
                         m["attrs"].append("#[diplomat::attr(%s, disable)]" % draw(st.sampled_from(CFG_ATOMS)))
                         placed.append("disable:method")
     return placed
+
+
+def add_trait(draw, prog):
+    """kotlin only (the one backend with trait support): a bridged trait whose methods take primitives / enums / structs, and a struct
+    method taking `impl DvTrait`"""
+    mod = prog["modules"][0]
+    hosts = [it for it in mod["items"] if it["kind"] == "struct" and not it.get("out") and it["fields"] and not it.get("lifetimes")]
+    if not hosts:
+        return
+    enums = [it for it in mod["items"] if it["kind"] == "enum"]
+
+    def ty():
+        k = draw(st.sampled_from(["prim", "prim", "enum", "struct"]))
+        if k == "enum" and enums:
+            return ["enum", draw(st.sampled_from(enums))["name"]]
+        if k == "struct":
+            return ["struct", draw(st.sampled_from(hosts))["name"], []]
+        return ["prim", draw(st.sampled_from(["u8", "i16", "i32", "u32", "i64", "f32", "f64", "bool"]))]
+    methods = []
+    for i in range(draw(st.integers(1, 2))):
+        params = [["a%d" % j, ty()] for j in range(draw(st.integers(0, 3)))]
+        ret = draw(st.sampled_from([None, ["prim", "i32"], ["prim", "u8"], ["prim", "f64"]]))
+        methods.append({"name": "go%d" % i, "params": params, "ret": ret})
+    prog.setdefault("traits", []).append({"name": "DvTrait", "methods": methods})
+    text = "pub trait DvTrait { " + " ".join("fn %s(&self%s)%s;" % (
+        m["name"], "".join(", %s: %s" % (n, ir.rs_type(t)) for n, t in m["params"]), (" -> " + ir.rs_type(m["ret"])) if m["ret"] else "") for m in methods) + " }"
+    mod.setdefault("raw_items", []).append(text)
+    host = draw(st.sampled_from(hosts))
+    host["impls"].append({"attrs": [], "methods": [{"name": "dv_use_trait", "attrs": [], "lifetimes": [], "self": ["val"], "params": [["t", ["raw", "impl DvTrait"], []]], "ret": ["prim", "u8"]}]})
+    ir.default_order(mod)
+
+
